@@ -50,6 +50,8 @@ structure WState where
   afterDeadOp : Bool := false  -- between a mutating storage access through a dead handle and the next mutating op
   -- stand-alone C01 check: every handle returned by a creation of this case, pairwise distinct
   c01Seen : Std.HashSet (Nat × Int) := {}
+  /-- a top-level line of this case carried ledger information (`! d …`): the harness runs in ledger mode -/
+  lgSeen : Bool := false
   /-- `lazy_flag` actions queued / expected to have run (every top-level `maintain` that returns (`=> acts …`) has run the whole queue) -/
   flagQ : Nat := 0
   flagRan : Nat := 0
@@ -183,7 +185,7 @@ def worldLine (st : WState) (line : String) : WState × List String :=
   | ["case", id] =>
     let (st, outs) := st.closeCase
     ({ st with caseHash := 7, caseNontrivial := false, caseId := id, lineNo := 0, model := {},
-               diverged := false, pending := [], mon := {}, monDead := false, lgHeld := [], lgDeferred := [], lgDead := false, evMember := {}, evMask := {}, evOff := [], evDead := false, afterPurge := false, afterDeadOp := false, c01Seen := {}, c01Dead := false, c05Alive := none, c05Dead := false, flagQ := 0, flagRan := 0, afterMaint := false, afterRjoin := false, pendingFault := none, leaked := st.leaked + st.mon.leaked, cases := st.cases + 1 }, outs)
+               diverged := false, pending := [], mon := {}, monDead := false, lgHeld := [], lgDeferred := [], lgDead := false, evMember := {}, evMask := {}, evOff := [], evDead := false, afterPurge := false, afterDeadOp := false, c01Seen := {}, c01Dead := false, c05Alive := none, c05Dead := false, flagQ := 0, flagRan := 0, lgSeen := false, afterMaint := false, afterRjoin := false, pendingFault := none, leaked := st.leaked + st.mon.leaked, cases := st.cases + 1 }, outs)
   | lt =>
     let (r, ledger) := splitLedger r0
     let st := { st with lineNo := st.lineNo + 1, lines := st.lines + 1,
@@ -397,8 +399,9 @@ def worldLine (st : WState) (line : String) : WState × List String :=
                [s!"MON {tag} case={st.caseId} line={st.lineNo} {why} op=[{shown}] impl=[{r}]"] ++ extra)
         let st := if nestedTag.isNone && faultNow.isSome then { st with pendingFault := none } else st
         -- 3. stand-alone ledger (C08), only in ledger mode (top-level lines carry `! d …`)
+        let st := if ledger.isSome && nestedTag.isNone then { st with lgSeen := true } else st
         let (st, out3) :=
-          if st.lgDead || (ledger.isNone && nestedTag.isNone) then (st, []) else
+          if st.lgDead || !st.lgSeen || (ledger.isNone && nestedTag.isNone) then (st, []) else
           let shown := match nestedTag with
             | some t => s!"in {t} {l}"
             | none => l
